@@ -11,9 +11,9 @@ def chainModel (line : String) : String :=
   match tokens line with
   | "chain" :: "hist" :: r =>
     if arg r "zero" = "1" then
-      "ok halted=false apphash_same=true results_same=true export=ok import=ok reimported_halted=false"
+      "ok halted=false apphash_same=true results_same=true registries_same=true export=ok import=ok reimported_halted=false"
     else
-      "ok halted=false apphash_same=true results_same=true export=ok import=ok fixpoint=true reimported_halted=false"
+      "ok halted=false apphash_same=true results_same=true registries_same=true export=ok import=ok fixpoint=true reimported_halted=false"
   | _ => "bad-op"
 
 def contains (s sub : String) : Bool := (s.splitOn sub).length > 1
@@ -42,7 +42,7 @@ def main (args : List String) : IO UInt32 := do
       let bad (k want : String) : Bool := (arg? t k).isSome && arg t k ≠ want
       let missing (k : String) : Bool := (arg? t k).isNone
       if prop = "C11" then
-        if bad "apphash_same" "true" || bad "results_same" "true" then
+        if bad "apphash_same" "true" || bad "results_same" "true" || bad "registries_same" "true" then
           fails := fails + 1
           out.putStrLn s!"mon C11 FAIL clause=replicas-diverge line={i+1} obs={b[i]!}"
       else if prop = "C13" then
